@@ -16,8 +16,15 @@ pub fn gen_doc(r: &mut Rng) -> J {
     if r.chance(1, 160) {
         // a really big array (thousands of elements, lengths around powers of two and not
         // divisible by 4): chunked, parallel or size-thresholded code paths wake up here
-        let n = *r.pick(&[2048usize, 2049, 3001, 4097, 5003, 2050]);
-        let ys: Vec<J> = (0..n).map(|i| J::Int(((i * 7919) % 1009) as i64 - 300)).collect();
+        let n = *r.pick(&[2048usize, 2049, 3001, 4097, 5003, 2050, 16385, 20001]);
+        let ys: Vec<J> = if n > 10000 {
+            // first half 1, second half 1.0 (and a few others): equal keys far apart
+            (0..n)
+                .map(|i| if i % 997 == 0 { J::Int((i % 5) as i64) } else if i < n / 2 { J::Int(1) } else { J::Float(1.0) })
+                .collect()
+        } else {
+            (0..n).map(|i| J::Int(((i * 7919) % 1009) as i64 - 300)).collect()
+        };
         return J::Obj(vec![
             ("ys".to_string(), J::Arr(ys)),
             ("a".to_string(), J::Int(r.range(-3, 9))),
@@ -96,6 +103,14 @@ fn gen_typed(r: &mut Rng) -> Typed {
     // half of the values are edges, half are drawn uniformly from the whole width
     let edge = r.chance(1, 2);
     let bits = r.next_u64();
+    if r.chance(1, 18) {
+        // the widest integers: in and beyond the JSON number range
+        return if r.chance(1, 2) {
+            Typed::I128(*r.pick(&[0i128, 5, -5, i64::MAX as i128, i64::MIN as i128, u64::MAX as i128, i128::MAX, i128::MIN, 1 << 70]))
+        } else {
+            Typed::U128(*r.pick(&[0u128, 7, u64::MAX as u128, (u64::MAX as u128) + 1, u128::MAX]))
+        };
+    }
     match r.below(16) {
         0 => Typed::I8(if edge { *r.pick(&[i8::MIN, -1, 0, 5, i8::MAX]) } else { bits as i8 }),
         1 => Typed::I16(if edge { *r.pick(&[i16::MIN, -1, 0, 300, i16::MAX]) } else { bits as i16 }),
